@@ -19,7 +19,7 @@ TRUSTED_BASE = [
 ]
 
 # hook commits in /repo (guarded by cargo feature 'verif')
-HOOK_COMMITS = ["0b8985f"]
+HOOK_COMMITS = ["0b8985f", "1141b44"]
 # reasons for properties without a check
 NOT_CLAIMED = {}
 
